@@ -241,6 +241,39 @@ func (p *Parts) WithMembers(rt *rapid.T, label string) *Parts {
 	return c
 }
 
+// WithMemberTypes: the same message and the same member NAMES, but the primary struct
+// declares them in another order and/or with other types that their values are also values
+// of (only atomic members directly inside the message are retyped).
+func (p *Parts) WithMemberTypes(rt *rapid.T, label string) *Parts {
+	c := p.Clone()
+	if c.Message == nil {
+		return c.WithDomainType(rt, label+".dt")
+	}
+	ms := append([]eip712ref.Member(nil), c.Members[c.Primary]...)
+	// (retyping looks at the one value in the message: only when the primary struct has no other instances)
+	onlyAtTop := true
+	for _, n := range c.Names {
+		for _, m := range c.Members[n] {
+			if base, _, _ := eip712ref.SplitType(m.Type); base == c.Primary {
+				onlyAtTop = false
+			}
+		}
+	}
+	for i, m := range ms {
+		if k, _ := eip712ref.Atomic(m.Type); k == eip712ref.NotAtomic || !onlyAtTop {
+			continue
+		}
+		if fit := typesFitting(c.Message.Get(m.Name)); len(fit) > 0 && rapid.Bool().Draw(rt, fmt.Sprintf("%s.alt%d", label, i)) {
+			ms[i].Type = rapid.SampledFrom(fit).Draw(rt, fmt.Sprintf("%s.type%d", label, i))
+		}
+	}
+	if len(ms) > 1 && rapid.Bool().Draw(rt, label+".reorder") {
+		ms = shuffleMembers(ms, rapid.Uint64().Draw(rt, label+".order"))
+	}
+	c.Members[c.Primary] = ms
+	return c
+}
+
 // WithPrimary: the same types, another primary type (possibly EIP712Domain).
 func (p *Parts) WithPrimary(rt *rapid.T, label string) *Parts {
 	c := p.Clone()
@@ -252,6 +285,68 @@ func (p *Parts) WithPrimary(rt *rapid.T, label string) *Parts {
 	}
 	c.genMessage(rt, label+".msg")
 	return c
+}
+
+// RetypeInPlace picks a declared atomic member — of EIP712Domain, or of the primary struct
+// when that has no other instances — and another type its value is also a value of.  It
+// changes the parts and returns the (type name, member index, new type) for a "set-member" step.
+func (p *Parts) RetypeInPlace(rt *rapid.T, label string) (typeName string, index int, newType string, ok bool) {
+	type cand struct {
+		tn  string
+		i   int
+		fit []string
+	}
+	var cands []cand
+	if p.DomainDefined {
+		for i, m := range p.Domain {
+			if fit := typesFitting(p.DomainVal.Get(m.Name)); len(fit) > 1 {
+				cands = append(cands, cand{eip712ref.DomainType, i, fit})
+			}
+		}
+	}
+	onlyAtTop := p.Message != nil
+	for _, n := range p.Names {
+		for _, m := range p.Members[n] {
+			if base, _, _ := eip712ref.SplitType(m.Type); base == p.Primary {
+				onlyAtTop = false
+			}
+		}
+	}
+	if onlyAtTop {
+		for i, m := range p.Members[p.Primary] {
+			if k, _ := eip712ref.Atomic(m.Type); k == eip712ref.NotAtomic {
+				continue
+			}
+			if fit := typesFitting(p.Message.Get(m.Name)); len(fit) > 1 {
+				cands = append(cands, cand{p.Primary, i, fit})
+			}
+		}
+	}
+	if len(cands) == 0 {
+		return "", 0, "", false
+	}
+	c := cands[rapid.IntRange(0, len(cands)-1).Draw(rt, label+".member")]
+	cur := ""
+	if c.tn == eip712ref.DomainType {
+		cur = p.Domain[c.i].Type
+	} else {
+		cur = p.Members[c.tn][c.i].Type
+	}
+	var others []string
+	for _, t := range c.fit {
+		if t != cur {
+			others = append(others, t)
+		}
+	}
+	newType = rapid.SampledFrom(others).Draw(rt, label+".type")
+	if c.tn == eip712ref.DomainType {
+		p.Domain[c.i].Type = newType
+	} else {
+		ms := append([]eip712ref.Member(nil), p.Members[c.tn]...)
+		ms[c.i].Type = newType
+		p.Members[c.tn] = ms
+	}
+	return c.tn, c.i, newType, true
 }
 
 // AtomicPaths lists the paths (for Step.Path) of the atomic values directly inside the
